@@ -26,6 +26,9 @@ type JudgeFailure struct {
 	Clause   string   `json:"clause"`
 	Detail   string   `json:"detail"`
 	Ops      []string `json:"ops"`
+	// History: for stateful domains, the schema line and every operation of the current history up to
+	// and including the failing one (a self-contained replay for the driver and for a reader)
+	History []string `json:"history,omitempty"`
 	// Signature identifies the failure for known_findings.json (clause + canonical minimal input).
 	Signature string `json:"signature"`
 }
@@ -43,6 +46,8 @@ type Out struct {
 	NDist    int                `json:"distinct_nontrivial"`
 	Rule     string             `json:"rule"`
 	Seed     uint64             `json:"seed"`
+	schemaLine string
+	history    []string
 	Props    []string           `json:"serves"`
 }
 
@@ -51,6 +56,15 @@ func (o *Out) Emit(op string, f func() string) string {
 	res := safe(f)
 	if strings.ContainsAny(op, "\n\r") || strings.ContainsAny(res, "\n\r") {
 		panic("harness: newline in protocol line: " + op)
+	}
+	switch {
+	case strings.HasPrefix(op, "typ.schema "):
+		o.schemaLine = op
+		o.history = nil
+	case strings.HasPrefix(op, "upd.reset "):
+		o.history = []string{op}
+	case strings.HasPrefix(op, "upd."):
+		o.history = append(o.history, op)
 	}
 	o.ops.WriteString(op)
 	o.ops.WriteByte('\n')
@@ -89,7 +103,15 @@ func (o *Out) Nontrivial(key string) {
 
 func (o *Out) Fail(prop, clause, detail, sig string, ops ...string) {
 	if len(o.Failures) < 200 {
-		o.Failures = append(o.Failures, JudgeFailure{Property: prop, Clause: clause, Detail: detail, Ops: ops, Signature: sig})
+		f := JudgeFailure{Property: prop, Clause: clause, Detail: detail, Ops: ops, Signature: sig}
+		if len(o.history) > 0 && len(o.Failures) < 20 {
+			f.History = append([]string{o.schemaLine}, o.history...)
+			// the failing op is emitted after the judge ran: include it
+			if len(ops) > 0 && (len(o.history) == 0 || o.history[len(o.history)-1] != ops[0]) {
+				f.History = append(f.History, ops[0])
+			}
+		}
+		o.Failures = append(o.Failures, f)
 	}
 	o.Dist["judge-fail:"+prop+":"+clause]++
 }
